@@ -47,6 +47,8 @@ def build_cases(tier):
         cases.append(dict(c, variants=[{}], static=["regs"]))
     for c in F.dev(tier):
         cases.append(dict(c, variants=[{}, {"inline_functions": False}], static=["regs"]))
+    for c in F.intrinsic(tier):
+        cases.append(dict(c, static=["regs"]))
     for c in F.w_alias_lifetime():
         cases.append(dict(c, variants=[{}, {"inline_functions": False}]))
     for c in cases:
